@@ -141,8 +141,85 @@ Fence(std::memory_order mo, std::source_location sl = std::source_location::curr
 }
 }  // namespace verif
 
+namespace verif
+{
+// operations on a std::weak_ptr the library keeps in shared state (EpochManager's per-slot heartbeat): a scheduling point
+// before, an event after; kinds: 0 expired, 1 lock, 2 assign, 3 reset
+void PrePlain(const void *obj, int kind, const char *file, unsigned line) noexcept;
+void PostPlain(const void *obj, int kind, int result) noexcept;
+}  // namespace verif
+
 namespace std
 {
+template <class T>
+class verif_weak_ptr : public weak_ptr<T>
+{
+  using B = weak_ptr<T>;
+  using SL = source_location;
+
+ public:
+  constexpr verif_weak_ptr() noexcept = default;
+  verif_weak_ptr(const verif_weak_ptr &o) noexcept : B{static_cast<const B &>(o)} {}
+  verif_weak_ptr(verif_weak_ptr &&o) noexcept : B{static_cast<B &&>(o)} {}
+  verif_weak_ptr(const B &o) noexcept : B{o} {}  // NOLINT
+  verif_weak_ptr(B &&o) noexcept : B{std::move(o)} {}  // NOLINT
+  template <class U>
+  verif_weak_ptr(const shared_ptr<U> &o) noexcept : B{o} {}  // NOLINT
+  ~verif_weak_ptr() = default;
+
+  auto
+  operator=(const verif_weak_ptr &o) noexcept -> verif_weak_ptr &
+  {
+    Assign(static_cast<const B &>(o), SL::current());
+    return *this;
+  }
+  auto
+  operator=(verif_weak_ptr &&o) noexcept -> verif_weak_ptr &
+  {
+    Assign(static_cast<const B &>(o), SL::current());
+    return *this;
+  }
+  template <class U>
+  auto
+  operator=(const shared_ptr<U> &o) noexcept -> verif_weak_ptr &
+  {
+    Assign(B{o}, SL::current());
+    return *this;
+  }
+  bool
+  expired(SL sl = SL::current()) const noexcept
+  {
+    ::verif::PrePlain(this, 0, sl.file_name(), sl.line());
+    const bool r = B::expired();
+    ::verif::PostPlain(this, 0, r);
+    return r;
+  }
+  shared_ptr<T>
+  lock(SL sl = SL::current()) const noexcept
+  {
+    ::verif::PrePlain(this, 1, sl.file_name(), sl.line());
+    auto r = B::lock();
+    ::verif::PostPlain(this, 1, r != nullptr);
+    return r;
+  }
+  void
+  reset(SL sl = SL::current()) noexcept
+  {
+    ::verif::PrePlain(this, 3, sl.file_name(), sl.line());
+    B::reset();
+    ::verif::PostPlain(this, 3, 0);
+  }
+
+ private:
+  void
+  Assign(const B &o, SL sl) noexcept
+  {
+    ::verif::PrePlain(this, 2, sl.file_name(), sl.line());
+    B::operator=(o);
+    ::verif::PostPlain(this, 2, !B::expired());
+  }
+};
+
 using verif_atomic_uint64_t = ::verif::Atomic<uint64_t>;
 using verif_atomic_size_t = ::verif::Atomic<size_t>;
 using verif_atomic_bool = ::verif::Atomic<bool>;
@@ -174,6 +251,9 @@ verif_mm_pause()
 #define atomic_thread_fence verif_atomic_thread_fence
 #define sleep_for verif_sleep_for
 #define _mm_pause verif_mm_pause
+#ifndef VERIF_SHIM_NO_WEAK
+#define weak_ptr verif_weak_ptr
+#endif
 #endif
 
 #endif  // VERIF_SHIM_HPP_
